@@ -27,7 +27,10 @@ type Case struct {
 	Order string `json:"order,omitempty"`
 }
 
-var orders = []string{"lcx", "clx", "xlc", "lxc", "cxl", "llccx", "xcxl"}
+// a digit = read that many lexemes and stop there (an iteration left half-way, then asked something else);
+// every order holds c, l and x (the oracle judges all three answers) and a digit is followed by c or l,
+// which start from the beginning again, before x (x after a digit alone would be the rest of the stream)
+var orders = []string{"lcx", "clx", "xlc", "lxc", "cxl", "llccx", "xcxl", "1clx", "2lcx", "4lxc", "5lcx", "7clx", "9lxc", "3c2lx", "6cxl"}
 
 func isBlank(c byte) bool { return c == ' ' || c == '\t' || c == '\n' || c == '\r' }
 
